@@ -33,7 +33,8 @@ from symx.explore import Obligation, Raised, call_catching
 
 hook.install()
 MOD = "props.c09h"
-LAYOUTS = {"sibling": ("a", "b", "core"), "nested": ("s.a", "s.b", "s.core"), "deep": ("a", "b", "x.y.core")}
+LAYOUTS = {"sibling": ("a", "b", "core"), "nested": ("s.a", "s.b", "s.core"), "deep": ("a", "b", "x.y.core"),
+           "same_leaf": ("p.client", "q.client", "core")}  # two clients whose package directories have the same name
 
 
 def _codes_text(codes):
@@ -374,7 +375,7 @@ def mk_shared(layout, which="both"):
 
 
 def specs(tier, which):
-    return [(MOD, "mk_shared", (layout, which)) for layout in (("sibling", "nested") if tier == "quick" else ("sibling", "nested", "deep"))]
+    return [(MOD, "mk_shared", (layout, which)) for layout in (("sibling", "nested", "same_leaf") if tier == "quick" else ("sibling", "nested", "deep", "same_leaf"))]
 
 
 def replay_ob(v):
